@@ -18,7 +18,7 @@ META = dict(
           "and adds exactly one unit per split, false negatives only remove, false positives only add, shifting keeps the number of units.",
     trusted="z3; RNG stub contract (uniform in [a,b), random in [0,1), randint in [a,b), choice of a non-zero-weight element); np.std as an uninterpreted value >= 0",
     bounds=dict(quick="references: 1 annotator x 2 units (symbolic coordinates; three fixed references for shift, where shift_max = magnitude x mean length "
-                      "would be a product of two symbols), 2 categories; 1..2 generated annotators; each flag alone, include_ref, all flags at magnitude 0; "
+                      "would be a product of two symbols), 2 categories (x / y, and '' / y: the empty string is a category like any other); 1..2 generated annotators; each flag alone, include_ref, all flags at magnitude 0; "
                       "<= 2 splits, <= 2 added units, per-path draw budget 14",
                 thorough="+ 3-unit references, flag pairs, 2 generated annotators everywhere, draw budget 20"),
     outside="references with > 3 units; more than 2 splits / 2 false positives per annotator; the probability law of the perturbations (how often), only "
@@ -50,6 +50,9 @@ def configs(tier):
     out.append(dict(key="include_ref,symbolic-ref,annotators=2", flags=[], ref=("sym", 2), anns=2, include_ref=True, cost=20))
     out.append(dict(key="named-annotators,symbolic-ref", flags=[], ref=("sym", 2), anns=["zoe", "abe"], cost=20))
     out.append(dict(key="all-flags,magnitude=0,symbolic-ref", flags=list(FLAGS), ref=("sym", 2), anns=2, m0=True, include_ref=True, budget=60, cost=100))
+    # a reference using the empty string as a label (a category like any other: copies keep it, it is not "no label")
+    out.append(dict(key="all-flags,magnitude=0,symbolic-ref,labels=['', 'y']", flags=list(FLAGS), ref=("sym", 2), anns=2, m0=True, include_ref=True, labs=["", "y"], budget=60, cost=100))
+    out.append(dict(key="false_neg,symbolic-ref,annotators=1,labels=['', 'y']", flags=["false_neg"], ref=("sym", 2), anns=1, labs=["", "y"], cost=300))
     out.append(dict(key="extra-categories,symbolic-ref", flags=["cat_shuffle"], ref=("sym", 2), anns=1, extra_cats=["zz"], cost=100))
     # one tool object used several times: a first shuffle at magnitude m, then `tool.magnitude = 0` and a second shuffle
     for flag in ("cat_shuffle", "false_neg", "split") + (("shift",) if tier == "thorough" else ()):
@@ -92,8 +95,9 @@ def harness(cfg, ns):
                 if prev is not None:
                     ctx.solver.add(st.e > prev.e)
                 prev = st
-                ref.add("ref", Segment(st, en), "xy"[k % 2])
-                runits.append((st, en, "xy"[k % 2]))
+                lab_ = cfg.get("labs", "xy")[k % 2]
+                ref.add("ref", Segment(st, en), lab_)
+                runits.append((st, en, lab_))
                 inputs += [st, en]
         if cfg.get("m0"):
             m = core.const(0)
